@@ -108,7 +108,7 @@ class AppLab:
         a.sp = f.sp         # (the handshake moves to another source port if the cookie is already taken in this table)
         # a data segment is any segment carrying PSH and ACK: sometimes decorate it (FIN for a client that writes and
         # closes at once, URG / ECE / CWR)
-        extra = rng.choice([0, 0, 0, 0, 0, 0, 1, 0x20, 0x40, 0x80]) if self.decorate else 0
+        extra = rng.choice([0, 0, 0, 0, 0, 0, 1, 0x20, 0x40, 0x80, 0x100]) if self.decorate else 0
         a.res = f.data(payload, flags=PSH | ACK | extra)
         a.rep = app_payload(a.res)
         if a.res.kind == "R":
